@@ -16,6 +16,14 @@ class Spec:
     def clone(self, *a, **k):
         return Spec(self.items + [('clone', a, k)])
 
+    # an imported managed object is a placeholder class here: calls on it (registerAugmentions, getIndexNames of a base
+    # row that lives in another module) are accepted and yield nothing
+    def __call__(self, *a, **k):
+        return Spec(self.items + [('call', a, k)])
+
+    def __iter__(self):
+        return iter(())
+
 
 class Meta(type):
     def __getattr__(cls, name):
